@@ -343,6 +343,54 @@ fn alphabet(r: &mut ChaCha20Rng) -> [Element; NREG] {
     m.regs
 }
 
+/// 32-byte scalars on which an LSB-first double-and-add over the prime-order group meets an exceptional
+/// operand pair: at bit i the accumulator (k mod 2^i)*B equals +-2^i*B or is the identity, i.e.
+/// k mod 2^i = 2^i - m*r, m*r - 2^i or m*r.  Possible only for i >= 250 (2^250 < r < 2^251).
+pub fn exceptional_scalars() -> Vec<Vec<u8>> {
+    let r = R_LE.to_vec();
+    let mut v: Vec<Vec<u8>> = Vec::new();
+    let fit = |x: Vec<u8>| -> Vec<u8> {
+        let mut y = x;
+        y.resize(32, 0);
+        y
+    };
+    for i in 250..=255usize {
+        let p2 = le_pow2(i, 33);
+        let mut mr = vec![0u8; 33];
+        for _m in 1..=4 {
+            mr = fit33(le_add(&mr, &r));
+            let mut lows: Vec<Vec<u8>> = Vec::new();
+            if le_less(&mr, &p2) {
+                lows.push(le_sub(&p2, &mr)); // 2^i - m r
+                lows.push(mr.clone());       // m r
+            }
+            if le_less(&p2, &mr) {
+                let d = le_sub(&mr, &p2);    // m r - 2^i
+                if le_less(&d, &p2) {
+                    lows.push(d);
+                }
+            }
+            for low in lows {
+                let mut lo = low.clone();
+                lo.resize(33, 0);
+                v.push(fit(lo.clone()));
+                let hi = le_add(&lo, &p2);
+                if i < 255 {
+                    v.push(fit(hi));
+                }
+            }
+        }
+    }
+    v.sort();
+    v.dedup();
+    v
+}
+fn fit33(x: Vec<u8>) -> Vec<u8> {
+    let mut y = x;
+    y.resize(33, 0);
+    y
+}
+
 fn rand_fq(r: &mut ChaCha20Rng) -> Fq {
     fq_from(&rbytes(r, 48))
 }
@@ -376,13 +424,14 @@ fn gadgets(out: &mut dyn Write, r: &mut ChaCha20Rng, n: usize) {
     emit(out, json!({"k":"reset","build":BUILD}));
     let al = alphabet(r);
     let sa = scalar_alphabet();
+    let ex = exceptional_scalars();
     let mut cnt = 0usize;
     for g in ELT_GADGETS {
         for m in MODES {
             if m == Mode::Input && (g.starts_with("alloc:omit") || *g == "alloc:AffinePoint" && false) {
                 continue;
             }
-            let npairs = if g.starts_with("scalar_mul") { 3 } else { 14 + n / 10 };
+            let npairs = if g.starts_with("scalar_mul") { 9 } else { 14 + n / 10 };
             for t in 0..npairs {
                 cnt += 1;
                 if cnt % 60 == 0 {
@@ -399,7 +448,7 @@ fn gadgets(out: &mut dyn Write, r: &mut ChaCha20Rng, n: usize) {
                     }),
                     _ => Element::encode_to_curve(&rand_fq(r)),
                 };
-                let k = if t == 0 { vec![0u8; 1] } else if t == 1 { sa[cnt % sa.len()].clone() } else { let nb = 1 + below(r, 3); rbytes(r, nb) };
+                let k = if t == 0 { vec![0u8; 1] } else if t == 1 { sa[cnt % sa.len()].clone() } else if t >= 3 && g.starts_with("scalar_mul") { ex[(cnt * 7 + t) % ex.len()].clone() } else { let nb = 1 + below(r, 3); rbytes(r, nb) };
                 let ins = Ins { p, q, s: Fq::zero(), k, cond: cnt % 2 == 0 };
                 if m == Mode::Input && !matches!(*g, "compress" | "alloc:Element" | "alloc:AffinePoint" | "neg" | "add:E+E" | "is_eq" | "enforce_equal" | "select") {
                     continue;
@@ -800,6 +849,7 @@ fn groth16_case<C: ConstraintSynthesizer<Fq> + Clone>(
 fn circuits(out: &mut dyn Write, r: &mut ChaCha20Rng, n: usize, prove: bool) {
     emit(out, json!({"k":"reset","build":BUILD}));
     let al = alphabet(r);
+    let ex = exceptional_scalars();
     for t in 0..n.max(1) {
         let a = if t < NREG { al[t % NREG] } else { Element::encode_to_curve(&rand_fq(r)) };
         let b = if t % 3 == 0 { al[(t + 3) % NREG] } else { Element::encode_to_curve(&rand_fq(r)) };
@@ -809,6 +859,9 @@ fn circuits(out: &mut dyn Write, r: &mut ChaCha20Rng, n: usize, prove: bool) {
         }
         if t == 1 {
             scalar = [0xff; 32];
+        }
+        if t >= 2 && t % 2 == 0 {
+            scalar.copy_from_slice(&ex[(t / 2 - 1) % ex.len()]);
         }
         let x = rand_fq(r);
         let dl_public = Fr::from_le_bytes_mod_order(&scalar) * Element::GENERATOR;
@@ -853,6 +906,7 @@ fn circuits(out: &mut dyn Write, r: &mut ChaCha20Rng, n: usize, prove: bool) {
 fn shapes(out: &mut dyn Write, r: &mut ChaCha20Rng, n: usize) {
     emit(out, json!({"k":"reset","build":BUILD}));
     let al = alphabet(r);
+    let ex = exceptional_scalars();
     for g in ELT_GADGETS.iter().chain(FQ_GADGETS.iter()) {
         for m in MODES {
             if m == Mode::Input && g.starts_with("alloc:omit") {
@@ -865,7 +919,10 @@ fn shapes(out: &mut dyn Write, r: &mut ChaCha20Rng, n: usize) {
                 let p = if p_is_const { al[2] } else if t < 3 { al[t * 2] } else { Element::encode_to_curve(&rand_fq(r)) };
                 let q = if q_is_const { al[5] } else if t % 2 == 0 { p } else { Element::encode_to_curve(&rand_fq(r)) };
                 let s = if m == Mode::Constant { Fq::from(8u64) } else if FQ_GADGETS.contains(g) && *g != "decompress" && *g != "alloc:Fq" { if t == 0 { Fq::zero() } else { rand_fq(r) } } else { p.vartime_compress_to_field() };
-                let ins = Ins { p, q, s, k: vec![t as u8, 0xff], cond: t % 2 == 0 };
+                // the scalar is always 32 bytes here (the number of bits is part of the shape); from t = 2 on it is
+                // one on which the in-circuit double-and-add meets equal / opposite / identity operands
+                let k = if *g != "scalar_mul_le" { vec![t as u8, 0xff] } else if t < 2 { let mut k = vec![0u8; 32]; k[0] = t as u8; k[1] = 0xff; k } else { ex[(t * 5 + m as usize) % ex.len()].clone() };
+                let ins = Ins { p, q, s, k, cond: t % 2 == 0 };
                 for setup in [true, false] {
                     if setup && t > 1 {
                         continue;
